@@ -1,43 +1,99 @@
-(** C02, root registration of the VM stack: "every opcode that may allocate publishes the stack top first".
+(** C02, root registration of the VM stack, two-sided:
+      "every opcode that may allocate publishes the stack top first"      (no LOST root)
+      "... and publishes no slot that it has not written"                  (no STALE root).
 
-    The marker scans a thread's stack only below the top PUBLISHED in the context
+    The marker scans a thread's stack exactly below the top PUBLISHED in the context
     (`sexp_context_top(ctx)`; Stack type: slot count = top, sexp.c `_sexp_type_specs[]`); the interpreter loop
     of sexp_apply (vm.c) keeps the real top in the C local `top` and copies it into the context before calls
-    that may allocate.  gen/c02_vmtop.py translates every case of the opcode switch into the item language
-    below (clang AST, macros expanded; may-allocate set from the call graph of the LLVM IR); [seg_ok] is an
-    abstract interpretation over the relation between the local and the published top:
-        Stale   nothing known (state at the start of every opcode: an earlier opcode may have moved top)
-        Le      local top <= published top
-        Eq d    local top  = published top + d
-    A call that may allocate is accepted only in a state where local top <= published top. *)
+    that may allocate.  A live operand above the published top is swept (lost root: defect 6, opcodes that did not
+    publish); a published slot that has not been written holds a word of an earlier call frame whose object may
+    have been swept already (stale root: the `sexp_raise` defect, /repo e9f05cd).
+
+    gen/c02_vmtop.py translates every case of the opcode switch into the item language below (clang AST, macros
+    expanded; may-allocate set from the call graph of the LLVM IR).  [seg_ok] is an abstract interpretation over
+        rel   Stale | Le | Eq d      relation of the local and the published top (top <= pub, top = pub + d)
+        hi    lower bound of  written end - local top
+        wp    lower bound of  written end - published top
+        fe    upper bound of  fresh end - local top   (-inf: no fresh store yet, +inf: nothing known)
+    where the "written end" w is a ghost quantity: every slot below w has been written under the frame protocol
+    (by this opcode, or it lay below the top the opcode started with), and the "fresh end" f is 1 + the highest
+    slot into which this opcode has stored a value that is neither an immediate nor a registered local (such a
+    value may be kept alive by that slot alone).  A call that may allocate is accepted
+    only when  top <= pub,  pub <= w  and  f <= pub;  an opcode starts in (Stale, 0, 0) = "top <= w and pub <= w" and must
+    re-establish exactly that at every exit, so the condition is an inductive invariant of the interpreter loop.
+
+    No proofs about the checker are mixed into its definition; soundness (for ALL items, including IIf, ILoop and
+    IBlock) is proved below against a big-step concrete semantics on (top, pub, w). *)
 From Coq Require Import ZArith List String Bool Lia.
 Import ListNotations.
 Local Open Scope Z_scope.
 
 Inductive item : Type :=
 | IPub (k : Z)            (* sexp_context_top(ctx) = top + k *)
-| IPubUnknown             (* sexp_context_top(ctx) = <something else> *)
+| IPubUnknown             (* sexp_context_top(ctx) = <something else>: never accepted *)
 | IReload                 (* top = sexp_context_top(ctx) *)
 | ITop (d : Z)            (* top += d  (_PUSH, _POP, top--, top -= 2 ...) *)
 | ITopDown                (* top -= <non-constant, non-negative amount> *)
-| ITopUnknown             (* top = <something else> *)
+| ITopUnknown             (* top = <something else>; assumed to lie at or below the written end *)
+| IStore (k : Z) (stable : bool)   (* stack[top + k] = e   (emitted after the items of e); stable: e is an immediate
+                                     built from an integer, or a local registered with sexp_gc_preserve *)
 | ICall (f : string)      (* call of a function from which sexp_alloc is reachable, or through a pointer *)
 | IIf (a b : list item)   (* either branch *)
-| ILoop (b : list item)   (* any number of iterations *)
-| IStop                   (* break of the opcode / goto / return *)
-| IBreak.                 (* break / continue of an inner loop or switch *)
+| ILoop (b : list item)   (* any number of iterations; IBreak inside = break or continue *)
+| IBlock (b : list item)  (* nested switch: IBreak inside leaves the block *)
+| IStop                   (* break of the opcode / goto / return: the opcode ends here *)
+| IBreak.                 (* break / continue of the enclosing ILoop / IBlock *)
 
-Inductive ast : Type := Stale | Le | Eq (d : Z).
+Inductive rel : Type := Stale | Le | Eq (d : Z).
 
-Definition safe (s : ast) : bool :=
-  match s with Stale => false | Le => true | Eq d => d <=? 0 end.
+Inductive ext : Type := NInf | Fin (z : Z) | PInf.
 
-Definition join1 (a b : ast) : ast :=
+Record ast : Type := mkast { arel : rel; ahi : Z; awp : Z; afe : ext }.
+
+Definition ext_max (a b : ext) : ext :=
+  match a, b with
+  | PInf, _ | _, PInf => PInf
+  | NInf, x | x, NInf => x
+  | Fin x, Fin y => Fin (Z.max x y)
+  end.
+
+Definition ext_add (a : ext) (d : Z) : ext := match a with Fin x => Fin (x + d) | _ => a end.
+
+Definition ext_eqb (a b : ext) : bool :=
+  match a, b with
+  | NInf, NInf | PInf, PInf => true
+  | Fin x, Fin y => x =? y
+  | _, _ => false
+  end.
+
+(** no fresh slot at or above the published top *)
+Definition fresh_ok (r : rel) (e : ext) : bool :=
+  match e with
+  | NInf => true
+  | PInf => false
+  | Fin a => match r with Stale => false | Le => a <=? 0 | Eq d => d + a <=? 0 end
+  end.
+
+Definition safe_rel (r : rel) : bool :=
+  match r with Stale => false | Le => true | Eq d => d <=? 0 end.
+
+(** acceptance of an allocating call: no lost root and no stale root *)
+Definition safe (s : ast) : bool := safe_rel (arel s) && (0 <=? awp s) && fresh_ok (arel s) (afe s).
+
+(** state required at every exit of an opcode = state assumed at every entry *)
+Definition start : ast := mkast Stale 0 0 NInf.
+Definition exit_ok (s : ast) : bool := (0 <=? ahi s) && (0 <=? awp s).
+Definition exit_oko (o : option ast) : bool := match o with None => true | Some s => exit_ok s end.
+
+Definition join_rel (a b : rel) : rel :=
   match a, b with
   | Stale, _ | _, Stale => Stale
   | Eq x, Eq y => if x =? y then Eq x else if (x <=? 0) && (y <=? 0) then Le else Stale
-  | _, _ => if safe a && safe b then Le else Stale
+  | _, _ => if safe_rel a && safe_rel b then Le else Stale
   end.
+
+Definition join1 (a b : ast) : ast :=
+  mkast (join_rel (arel a) (arel b)) (Z.min (ahi a) (ahi b)) (Z.min (awp a) (awp b)) (ext_max (afe a) (afe b)).
 
 (** [None] = unreachable *)
 Definition join (a b : option ast) : option ast :=
@@ -46,181 +102,585 @@ Definition join (a b : option ast) : option ast :=
   | Some x, Some y => Some (join1 x y)
   end.
 
-Definition ast_eqb (a b : option ast) : bool :=
+Definition rel_eqb (a b : rel) : bool :=
   match a, b with
-  | None, None => true
-  | Some Stale, Some Stale | Some Le, Some Le => true
-  | Some (Eq x), Some (Eq y) => x =? y
+  | Stale, Stale | Le, Le => true
+  | Eq x, Eq y => x =? y
   | _, _ => false
   end.
 
-Definition step_top (s : ast) (d : Z) : ast :=
-  match s with
+Definition ast_eqb (a b : option ast) : bool :=
+  match a, b with
+  | None, None => true
+  | Some x, Some y => rel_eqb (arel x) (arel y) && (ahi x =? ahi y) && (awp x =? awp y) && ext_eqb (afe x) (afe y)
+  | _, _ => false
+  end.
+
+Definition step_top (r : rel) (d : Z) : rel :=
+  match r with
   | Stale => Stale
   | Le => if d <=? 0 then Le else Stale
   | Eq x => Eq (x + d)
   end.
 
-Definition step_down (s : ast) : ast :=
-  match s with Stale => Stale | Le => Le | Eq x => if x <=? 0 then Le else Stale end.
+Definition step_down (r : rel) : rel :=
+  match r with Stale => Stale | Le => Le | Eq x => if x <=? 0 then Le else Stale end.
 
-(** result: (all calls seen so far were safe, fall-through state) *)
-Fixpoint run_item (fuel : nat) (it : item) (s : ast) {struct fuel} : bool * option ast :=
-  match fuel with
-  | O => (false, Some Stale)
-  | S f =>
-    let run_list := fix rl (l : list item) (ok : bool) (st : option ast) {struct l} : bool * option ast :=
-      match l with
-      | [] => (ok, st)
-      | IBreak :: _ => (ok, st)
-      | x :: tl =>
-        match st with
-        | None => (ok, None)
-        | Some s0 => let '(ok1, st1) := run_item f x s0 in rl tl (ok && ok1) st1
-        end
-      end in
-    match it with
-    | IPub k => (true, Some (Eq (- k)))
-    | IPubUnknown => (true, Some Stale)
-    | IReload => (true, Some (Eq 0))
-    | ITop d => (true, Some (step_top s d))
-    | ITopDown => (true, Some (step_down s))
-    | ITopUnknown => (true, Some Stale)
-    | ICall _ => (safe s, Some s)
-    | IIf a b =>
-      let '(oka, sa) := run_list a true (Some s) in
-      let '(okb, sb) := run_list b true (Some s) in
-      (oka && okb, join sa sb)
-    | ILoop b =>
-      (* three rounds reach the top of a chain Eq -> Le -> Stale; the result must be stable, else Stale *)
-      let round := fun (inv : option ast) => join inv (snd (run_list b true inv)) in
-      let inv3 := round (round (round (Some s))) in
-      let inv := if ast_eqb (round inv3) inv3 then inv3 else Some Stale in
-      (fst (run_list b true inv), inv)
-    | IStop => (true, None)
-    | IBreak => (true, Some s)
-    end
+Definition step_store (s : ast) (k : Z) (stable : bool) : ast :=
+  let hi' := if k =? ahi s then ahi s + 1 else ahi s in
+  mkast (arel s) hi' (match arel s with Eq d => Z.max (awp s) (hi' + d) | _ => awp s end)
+        (if stable then afe s else ext_max (afe s) (Fin (k + 1))).
+
+Definition step_reload_fe (r : rel) (e : ext) : ext :=
+  match r with
+  | Eq d => ext_add e d
+  | Le => e
+  | Stale => match e with NInf => NInf | _ => PInf end
   end.
 
-Fixpoint run_list (fuel : nat) (l : list item) (ok : bool) (st : option ast) {struct l} : bool * option ast :=
-  match l with
-  | [] => (ok, st)
-  | IBreak :: _ => (ok, st)
-  | x :: tl =>
+Definition widen (o : option ast) : option ast :=
+  match o with None => None | Some s => Some (mkast (arel s) (ahi s) (awp s) PInf) end.
+
+(** result of the checker on a piece of code: all calls / exits seen were acceptable; state at the fall-through
+    end; join of the states at the IBreak items that leave the piece *)
+Record res : Type := mkres { rok : bool; rfall : option ast; rbrk : option ast }.
+
+Definition run_list_with (ri : item -> ast -> res) : list item -> option ast -> res :=
+  fix rl (l : list item) (st : option ast) {struct l} : res :=
     match st with
-    | None => (ok, None)
-    | Some s0 => let '(ok1, st1) := run_item fuel x s0 in run_list fuel tl (ok && ok1) st1
-    end
+    | None => mkres true None None
+    | Some s0 =>
+      match l with
+      | [] => mkres true st None
+      | x :: tl =>
+        let r1 := ri x s0 in
+        let r2 := rl tl (rfall r1) in
+        mkres (rok r1 && rok r2) (rfall r2) (join (rbrk r1) (rbrk r2))
+      end
+    end.
+
+Definition loop_round (body : option ast -> res) (inv : option ast) : option ast :=
+  let r := body inv in join inv (join (rfall r) (rbrk r)).
+
+(** three rounds reach the top of a chain Eq -> Le -> Stale; hi and wp only decrease; if the result is not stable
+    the fresh end is widened to +inf and one more round is made; the result must then be stable (otherwise the
+    loop is rejected) *)
+Definition loop_res (body : option ast -> res) (s : ast) : res :=
+  let inv3 := loop_round body (loop_round body (loop_round body (Some s))) in
+  let inv := if ast_eqb (loop_round body inv3) inv3 then inv3 else loop_round body (widen inv3) in
+  let r := body inv in
+  mkres (rok r && ast_eqb (loop_round body inv) inv) inv None.
+
+Fixpoint run_item (it : item) (s : ast) {struct it} : res :=
+  match it with
+  | IPub k => mkres true (Some (mkast (Eq (- k)) (ahi s) (ahi s - k) (afe s))) None
+  | IPubUnknown => mkres false (Some s) None
+  | IReload => mkres true (Some (mkast (Eq 0) (awp s) (awp s) (step_reload_fe (arel s) (afe s)))) None
+  | ITop d => mkres true (Some (mkast (step_top (arel s) d) (ahi s - d) (awp s) (ext_add (afe s) (- d)))) None
+  | ITopDown => mkres true (Some (mkast (step_down (arel s)) (ahi s) (awp s) (match afe s with NInf => NInf | _ => PInf end))) None
+  | ITopUnknown => mkres true (Some (mkast Stale 0 (awp s) NInf)) None
+  | IStore k stb => mkres true (Some (step_store s k stb)) None
+  | ICall _ => mkres (safe s) (Some s) None
+  | IIf a b =>
+    let ra := run_list_with run_item a (Some s) in
+    let rb := run_list_with run_item b (Some s) in
+    mkres (rok ra && rok rb) (join (rfall ra) (rfall rb)) (join (rbrk ra) (rbrk rb))
+  | ILoop b => loop_res (run_list_with run_item b) s
+  | IBlock b =>
+    let r := run_list_with run_item b (Some s) in
+    mkres (rok r) (join (rfall r) (rbrk r)) None
+  | IStop => mkres (exit_ok s) None None
+  | IBreak => mkres true None (Some s)
   end.
 
-(** an opcode segment starts with nothing known about the published top *)
-Definition seg_ok (e : string * list item) : bool := fst (run_list 40 (snd e) true (Some Stale)).
+Definition run_list : list item -> option ast -> res := run_list_with run_item.
+
+(** an opcode segment starts with nothing known about the relation of the two tops, and with every slot below
+    either of them written; it is accepted when every allocating call inside is [safe] and every way out of it
+    (IStop, running off the end) re-establishes [exit_ok] *)
+Definition seg_ok (e : string * list item) : bool :=
+  let r := run_list (snd e) (Some start) in
+  rok r && exit_oko (rfall r) && exit_oko (rbrk r).
 
 (** -------------------------------------------------------------------------------------------------
-    Soundness for branch-free code (the shape of 40 of the 56 allocating opcodes): concrete semantics on
-    (local top, published top); every ICall executes with top <= published. *)
-Inductive flat : item -> Prop :=
-| FPub k : flat (IPub k) | FReload : flat IReload | FTop d : flat (ITop d) | FCall f : flat (ICall f).
+    Concrete semantics.  A configuration is (local top, published top, written end, fresh end).  [OBad] = an
+    allocating call ran with the local top above the published top or with a freshly stored slot at or above
+    it (lost root), or with the published top above the written end (stale root). *)
+Record conc : Type := mkc { ctop : Z; cpub : Z; cw : Z; cf : option Z }.
 
-(** concrete step; [None] = the call ran with top above the published top *)
-Definition cstep (it : item) (c : Z * Z) : option (Z * Z) :=
-  let '(top, pub) := c in
-  match it with
-  | IPub k => Some (top, top + k)
-  | IReload => Some (pub, pub)
-  | ITop d => Some (top + d, pub)
-  | ICall _ => if top <=? pub then Some c else None
-  | _ => Some c
+Definition fresh_store (c : conc) (k : Z) (stable : bool) : option Z :=
+  if stable then cf c else
+  match cf c with None => Some (ctop c + k + 1) | Some f => Some (Z.max f (ctop c + k + 1)) end.
+
+Definition fresh_below_pub (c : conc) : Prop := match cf c with None => True | Some f => f <= cpub c end.
+
+Inductive out : Type := OFall (c : conc) | OBreak (c : conc) | OStop (c : conc) | OBad.
+
+Definition aborts (o : out) : Prop := match o with OStop _ | OBad => True | _ => False end.
+Definition not_fall (o : out) : Prop := match o with OFall _ => False | _ => True end.
+
+Inductive exec : item -> conc -> out -> Prop :=
+| EPub k c : exec (IPub k) c (OFall (mkc (ctop c) (ctop c + k) (cw c) (cf c)))
+| EPubU p c : exec IPubUnknown c (OFall (mkc (ctop c) p (cw c) (cf c)))
+| EReload c : exec IReload c (OFall (mkc (cpub c) (cpub c) (cw c) (cf c)))
+| ETop d c : exec (ITop d) c (OFall (mkc (ctop c + d) (cpub c) (cw c) (cf c)))
+| ETopDown n c : 0 <= n -> exec ITopDown c (OFall (mkc (ctop c - n) (cpub c) (cw c) (cf c)))
+| ETopU t c : t <= cw c -> exec ITopUnknown c (OFall (mkc t (cpub c) (cw c) None))
+| EStore k stb c : exec (IStore k stb) c
+                     (OFall (mkc (ctop c) (cpub c) (if ctop c + k =? cw c then cw c + 1 else cw c) (fresh_store c k stb)))
+| ECallOk f c : ctop c <= cpub c -> cpub c <= cw c -> fresh_below_pub c -> exec (ICall f) c (OFall c)
+| ECallLost f c : cpub c < ctop c -> exec (ICall f) c OBad
+| ECallStale f c : cw c < cpub c -> exec (ICall f) c OBad
+| ECallFresh f c x : cf c = Some x -> cpub c < x -> exec (ICall f) c OBad
+| EIfA a b c o : execs a c o -> exec (IIf a b) c o
+| EIfB a b c o : execs b c o -> exec (IIf a b) c o
+| ELoopDone b c : exec (ILoop b) c (OFall c)
+| ELoopIter b c c1 o : execs b c (OFall c1) -> exec (ILoop b) c1 o -> exec (ILoop b) c o
+| ELoopBreak b c c1 : execs b c (OBreak c1) -> exec (ILoop b) c (OFall c1)
+| ELoopCont b c c1 o : execs b c (OBreak c1) -> exec (ILoop b) c1 o -> exec (ILoop b) c o
+| ELoopAbort b c o : execs b c o -> aborts o -> exec (ILoop b) c o
+| EBlockFall b c c1 : execs b c (OFall c1) -> exec (IBlock b) c (OFall c1)
+| EBlockBreak b c c1 : execs b c (OBreak c1) -> exec (IBlock b) c (OFall c1)
+| EBlockAbort b c o : execs b c o -> aborts o -> exec (IBlock b) c o
+| EStop c : exec IStop c (OStop c)
+| EBreak c : exec IBreak c (OBreak c)
+with execs : list item -> conc -> out -> Prop :=
+| ENil c : execs [] c (OFall c)
+| EConsFall x tl c c1 o : exec x c (OFall c1) -> execs tl c1 o -> execs (x :: tl) c o
+| EConsOther x tl c o : exec x c o -> not_fall o -> execs (x :: tl) c o.
+
+Scheme exec_mind := Minimality for exec Sort Prop
+  with execs_mind := Minimality for execs Sort Prop.
+Combined Scheme exec_execs_mind from exec_mind, execs_mind.
+
+(** concretisation *)
+Definition grel (r : rel) (c : conc) : Prop :=
+  match r with Stale => True | Le => ctop c <= cpub c | Eq d => ctop c = cpub c + d end.
+
+Definition gfe (e : ext) (c : conc) : Prop :=
+  match cf c with
+  | None => True
+  | Some f => match e with NInf => False | Fin a => f - ctop c <= a | PInf => True end
   end.
 
-Fixpoint crun (l : list item) (c : Z * Z) : option (Z * Z) :=
-  match l with
-  | [] => Some c
-  | x :: tl => match cstep x c with None => None | Some c' => crun tl c' end
+Definition gamma (s : ast) (c : conc) : Prop :=
+  grel (arel s) c /\ ahi s <= cw c - ctop c /\ awp s <= cw c - cpub c /\ gfe (afe s) c.
+
+Definition gammao (o : option ast) (c : conc) : Prop :=
+  match o with None => False | Some s => gamma s c end.
+
+(** the entry / exit condition of an opcode on configurations: every slot below the local top and below the
+    published top has been written *)
+Definition entry (c : conc) : Prop := ctop c <= cw c /\ cpub c <= cw c.
+
+Definition sound_out (r : res) (o : out) : Prop :=
+  match o with
+  | OFall c => gammao (rfall r) c
+  | OBreak c => gammao (rbrk r) c
+  | OStop c => entry c
+  | OBad => False
   end.
 
-Definition gamma (s : ast) (c : Z * Z) : Prop :=
-  match s with Stale => True | Le => fst c <= snd c | Eq d => fst c = snd c + d end.
+(** ---- lattice facts *)
+Ltac split_ifs :=
+  repeat match goal with |- context [if ?x then _ else _] => destruct x eqn:? end;
+  simpl in *; auto;
+  repeat match goal with
+         | H : (_ <=? _) = true |- _ => apply Z.leb_le in H
+         | H : (_ =? _) = true |- _ => apply Z.eqb_eq in H
+         | H : (_ && _) = true |- _ => apply andb_prop in H; destruct H
+         end.
 
-Lemma safe_gamma : forall s c, safe s = true -> gamma s c -> fst c <=? snd c = true.
+Lemma grel_join_l : forall a b c, grel a c -> grel (join_rel a b) c.
+Proof. intros a b c H; destruct a, b; simpl in *; auto; split_ifs; try lia. Qed.
+
+Lemma grel_join_r : forall a b c, grel b c -> grel (join_rel a b) c.
+Proof. intros a b c H; destruct a, b; simpl in *; auto; split_ifs; try lia. Qed.
+
+Lemma gfe_max_l : forall a b c, gfe a c -> gfe (ext_max a b) c.
+Proof. intros a b c; unfold gfe; destruct (cf c); auto; destruct a, b; simpl; auto; try contradiction; lia. Qed.
+
+Lemma gfe_max_r : forall a b c, gfe b c -> gfe (ext_max a b) c.
+Proof. intros a b c; unfold gfe; destruct (cf c); auto; destruct a, b; simpl; auto; try contradiction; lia. Qed.
+
+Lemma gamma_join_l : forall a b c, gammao a c -> gammao (join a b) c.
 Proof.
-  intros s [t p] Hs Hg; destruct s; simpl in *; try discriminate.
-  - apply Z.leb_le; exact Hg.
-  - apply Z.leb_le in Hs. apply Z.leb_le. lia.
+  intros [a|] [b|] c H; simpl in *; auto; try contradiction.
+  destruct H as [H1 [H2 [H3 H4]]]. split; [apply grel_join_l; exact H1 | simpl].
+  split; [lia|]. split; [lia|]. apply gfe_max_l; exact H4.
 Qed.
 
-Lemma run_item_flat : forall f it s, flat it ->
-  run_item (S f) it s =
-  match it with
-  | IPub k => (true, Some (Eq (- k)))
-  | IReload => (true, Some (Eq 0))
-  | ITop d => (true, Some (step_top s d))
-  | ICall _ => (safe s, Some s)
-  | _ => (true, None)
-  end.
-Proof. intros f it s H; destruct H; reflexivity. Qed.
-
-Lemma flat_step_sound : forall f it s c s',
-  flat it -> gamma s c -> run_item (S f) it s = (true, Some s') ->
-  exists c', cstep it c = Some c' /\ gamma s' c'.
+Lemma gamma_join_r : forall a b c, gammao b c -> gammao (join a b) c.
 Proof.
-  intros f it s [t p] s' Hf Hg Hr.
-  rewrite (run_item_flat f it s Hf) in Hr.
-  destruct Hf.
-  - inversion Hr; subst; eexists; split; [reflexivity|]; simpl; lia.
-  - inversion Hr; subst; eexists; split; [reflexivity|]; simpl; lia.
-  - inversion Hr; subst. eexists; split; [reflexivity|].
-    destruct s; simpl in *; auto.
-    + destruct (d <=? 0) eqn:E; simpl; auto. apply Z.leb_le in E. lia.
-    + lia.
-  - inversion Hr as [[Hs Hs']]; subst s'.
-    pose proof (safe_gamma _ _ Hs Hg) as Hle; simpl in Hle.
-    exists (t, p); split; [simpl; rewrite Hle; reflexivity | exact Hg].
+  intros [a|] [b|] c H; simpl in *; auto; try contradiction.
+  destruct H as [H1 [H2 [H3 H4]]]. split; [apply grel_join_r; exact H1 | simpl].
+  split; [lia|]. split; [lia|]. apply gfe_max_r; exact H4.
 Qed.
 
-Lemma flat_never_none : forall f it s ok, flat it -> run_item (S f) it s <> (ok, None).
-Proof. intros f it s ok Hf; rewrite (run_item_flat f it s Hf); destruct Hf; discriminate. Qed.
-
-Arguments run_item : simpl never.
-
-Lemma run_list_false : forall f l st, fst (run_list f l false st) = false.
+Lemma gamma_widen : forall a c, gammao a c -> gammao (widen a) c.
 Proof.
-  intros f l; induction l as [|y l IH]; intros st; simpl; auto.
-  destruct y; auto; destruct st; auto;
-  match goal with |- context [run_item f ?i ?a] => destruct (run_item f i a) end; simpl; apply IH.
+  intros [a|] c H; simpl in *; auto. destruct H as [H1 [H2 [H3 H4]]].
+  unfold gamma; simpl. repeat split; auto. unfold gfe; destruct (cf c); auto.
 Qed.
 
-(** branch-free segments accepted by the checker never allocate with the local top above the published one *)
-Theorem vm_top_checker_sound_flat : forall l f s c ok,
-  Forall flat l -> gamma s c -> fst (run_list (S f) l ok (Some s)) = true ->
-  crun l c <> None.
+Lemma rel_eqb_eq : forall a b, rel_eqb a b = true -> a = b.
+Proof. intros [| |x] [| |y] H; simpl in H; try discriminate; auto. apply Z.eqb_eq in H. subst; auto. Qed.
+
+Lemma ext_eqb_eq : forall a b, ext_eqb a b = true -> a = b.
+Proof. intros [|x|] [|y|] H; simpl in H; try discriminate; auto. apply Z.eqb_eq in H. subst; auto. Qed.
+
+Lemma ast_eqb_eq : forall a b, ast_eqb a b = true -> a = b.
 Proof.
-  induction l as [|x tl IH]; intros f s c ok Hfl Hg Hr; [simpl; discriminate|].
-  inversion Hfl as [|? ? Hx Htl]; subst.
-  assert (Hstep : run_list (S f) (x :: tl) ok (Some s) =
-                  let '(ok1, st1) := run_item (S f) x s in run_list (S f) tl (ok && ok1) st1)
-    by (destruct Hx; reflexivity).
-  rewrite Hstep in Hr; clear Hstep.
-  destruct (run_item (S f) x s) as [ok1 st1] eqn:E.
-  destruct ok1.
-  2:{ rewrite andb_false_r, run_list_false in Hr; discriminate. }
-  destruct st1 as [s1|].
-  2:{ exfalso; eapply flat_never_none; eauto. }
-  destruct (flat_step_sound f x s c s1 Hx Hg E) as [c' [Hc Hg']].
-  simpl; rewrite Hc. eapply IH; eauto.
+  intros [[ra ha wa ea]|] [[rb hb wb eb]|] H; simpl in H; try discriminate; auto.
+  apply andb_prop in H. destruct H as [H H4]. apply andb_prop in H. destruct H as [H H3].
+  apply andb_prop in H. destruct H as [H1 H2].
+  apply rel_eqb_eq in H1. apply Z.eqb_eq in H2. apply Z.eqb_eq in H3. apply ext_eqb_eq in H4. subst; auto.
 Qed.
 
-(** examples: the repaired STRING_REF shape is accepted, the pinned one (call before any publish) and a
-    push after the publish are rejected *)
+Lemma rel_eqb_refl : forall a, rel_eqb a a = true.
+Proof. intros [| |x]; simpl; auto. apply Z.eqb_refl. Qed.
+
+Lemma ext_eqb_refl : forall a, ext_eqb a a = true.
+Proof. intros [|x|]; simpl; auto. apply Z.eqb_refl. Qed.
+
+Lemma ast_eqb_refl : forall a, ast_eqb a a = true.
+Proof. intros [[r h w e]|]; simpl; auto. rewrite rel_eqb_refl, !Z.eqb_refl, ext_eqb_refl. reflexivity. Qed.
+
+Lemma safe_gamma : forall s c, safe s = true -> gamma s c ->
+  ctop c <= cpub c /\ cpub c <= cw c /\ fresh_below_pub c.
+Proof.
+  intros [r h w e] c Hs [H1 [H2 [H3 H4]]]; unfold safe in Hs; simpl in *.
+  apply andb_prop in Hs. destruct Hs as [Hs Hf]. apply andb_prop in Hs. destruct Hs as [Hr Hw].
+  apply Z.leb_le in Hw.
+  assert (Ht : ctop c <= cpub c).
+  { destruct r; simpl in *; try discriminate; auto. apply Z.leb_le in Hr. lia. }
+  split; [exact Ht|]. split; [lia|].
+  unfold fresh_below_pub, gfe in *. destruct (cf c) as [f|]; auto.
+  destruct e as [|a|]; simpl in Hf; try discriminate; try contradiction.
+  destruct r; simpl in *; try discriminate; apply Z.leb_le in Hf; lia.
+Qed.
+
+Lemma exit_gamma : forall s c, exit_ok s = true -> gamma s c -> entry c.
+Proof.
+  intros [r h w e] c He [H1 [H2 [H3 H4]]]; unfold exit_ok in He; simpl in *.
+  apply andb_prop in He. destruct He as [Ha Hb]. apply Z.leb_le in Ha. apply Z.leb_le in Hb.
+  unfold entry; lia.
+Qed.
+
+Lemma entry_gamma_start : forall c, entry c -> cf c = None -> gamma start c.
+Proof. intros c [H1 H2] Hf; unfold gamma, start, gfe; simpl. rewrite Hf. repeat split; auto; lia. Qed.
+
+(** ---- unfolding equations *)
+Lemma run_list_nil : forall s, run_list [] (Some s) = mkres true (Some s) None.
+Proof. reflexivity. Qed.
+
+Lemma run_list_none : forall l, run_list l None = mkres true None None.
+Proof. intros [|x l]; reflexivity. Qed.
+
+Lemma run_list_cons : forall x tl s,
+  run_list (x :: tl) (Some s) =
+  mkres (rok (run_item x s) && rok (run_list tl (rfall (run_item x s))))
+        (rfall (run_list tl (rfall (run_item x s))))
+        (join (rbrk (run_item x s)) (rbrk (run_list tl (rfall (run_item x s))))).
+Proof. reflexivity. Qed.
+
+Lemma run_item_if : forall a b s,
+  run_item (IIf a b) s =
+  mkres (rok (run_list a (Some s)) && rok (run_list b (Some s)))
+        (join (rfall (run_list a (Some s))) (rfall (run_list b (Some s))))
+        (join (rbrk (run_list a (Some s))) (rbrk (run_list b (Some s)))).
+Proof. reflexivity. Qed.
+
+Lemma run_item_loop : forall b s, run_item (ILoop b) s = loop_res (run_list b) s.
+Proof. reflexivity. Qed.
+
+Lemma run_item_block : forall b s,
+  run_item (IBlock b) s =
+  mkres (rok (run_list b (Some s))) (join (rfall (run_list b (Some s))) (rbrk (run_list b (Some s)))) None.
+Proof. reflexivity. Qed.
+
+Arguments loop_round : simpl never.
+
+(** ---- loops: the accepted invariant is a post-fixpoint of the body and covers the entry state *)
+Lemma loop_round_some : forall body s, exists s', loop_round body (Some s) = Some s'.
+Proof.
+  intros body s; unfold loop_round.
+  destruct (join (rfall (body (Some s))) (rbrk (body (Some s)))) as [y|]; simpl; eauto.
+Qed.
+
+Lemma loop_round_ge : forall body inv c, gammao inv c -> gammao (loop_round body inv) c.
+Proof. intros; unfold loop_round; apply gamma_join_l; assumption. Qed.
+
+Lemma widen_some : forall s, exists s', widen (Some s) = Some s'.
+Proof. intros s; simpl; eauto. Qed.
+
+Lemma loop_res_inv : forall body s,
+  rok (loop_res body s) = true ->
+  exists si, rfall (loop_res body s) = Some si /\
+             (forall c, gamma s c -> gamma si c) /\
+             loop_round body (Some si) = Some si /\
+             rok (body (Some si)) = true.
+Proof.
+  intros body s H. unfold loop_res in *. cbn [rok rfall rbrk] in *.
+  destruct (loop_round_some body s) as [s1 E1].
+  destruct (loop_round_some body s1) as [s2 E2].
+  destruct (loop_round_some body s2) as [s3 E3].
+  rewrite E1, E2, E3 in *.
+  assert (G3 : forall c, gamma s c -> gamma s3 c).
+  { intros c Hg.
+    assert (G1 : gammao (Some s1) c) by (rewrite <- E1; apply loop_round_ge; exact Hg).
+    assert (G2 : gammao (Some s2) c) by (rewrite <- E2; apply loop_round_ge; exact G1).
+    assert (G3 : gammao (Some s3) c) by (rewrite <- E3; apply loop_round_ge; exact G2).
+    exact G3. }
+  destruct (ast_eqb (loop_round body (Some s3)) (Some s3)) eqn:Est.
+  - apply andb_prop in H. destruct H as [Hok Hst]. apply ast_eqb_eq in Hst.
+    exists s3. split; [reflexivity|]. split; [exact G3|split; [exact Hst | exact Hok]].
+  - destruct (widen_some s3) as [s4 E4]. destruct (loop_round_some body s4) as [s5 E5].
+    rewrite E4, E5 in *.
+    apply andb_prop in H. destruct H as [Hok Hst]. apply ast_eqb_eq in Hst.
+    exists s5. split; [reflexivity|]. split; [|split; [exact Hst | exact Hok]].
+    intros c Hg.
+    assert (G4 : gammao (Some s4) c) by (rewrite <- E4; apply gamma_widen; exact (G3 c Hg)).
+    assert (G5 : gammao (Some s5) c) by (rewrite <- E5; apply loop_round_ge; exact G4).
+    exact G5.
+Qed.
+
+Lemma loop_res_stable : forall body si,
+  loop_round body (Some si) = Some si -> rok (body (Some si)) = true ->
+  loop_res body si = mkres true (Some si) None.
+Proof.
+  intros body si Hst Hok. unfold loop_res. rewrite !Hst, ast_eqb_refl, Hst, Hok, ast_eqb_refl. reflexivity.
+Qed.
+
+Arguments loop_res : simpl never.
+
+(** ---- soundness of one basic step *)
+Lemma step_store_sound : forall s k stb c,
+  gamma s c ->
+  gamma (step_store s k stb)
+        (mkc (ctop c) (cpub c) (if ctop c + k =? cw c then cw c + 1 else cw c) (fresh_store c k stb)).
+Proof.
+  intros [r h w e] k stb [t p ww f] [H1 [H2 [H3 H4]]]; unfold step_store; simpl in *.
+  assert (Hw : ww <= (if t + k =? ww then ww + 1 else ww)) by (destruct (t + k =? ww); lia).
+  assert (Hh : (if k =? h then h + 1 else h) <= (if t + k =? ww then ww + 1 else ww) - t).
+  { destruct (k =? h) eqn:Ek.
+    - apply Z.eqb_eq in Ek. subst k. destruct (t + h =? ww) eqn:Ew.
+      + apply Z.eqb_eq in Ew. lia.
+      + apply Z.eqb_neq in Ew. lia.
+    - lia. }
+  split; [|split; [|split]].
+  - destruct r; simpl in *; auto.
+  - simpl. exact Hh.
+  - simpl. destruct r; simpl in *; lia.
+  - unfold gfe, fresh_store in *; simpl in *. destruct stb; [exact H4|].
+    destruct f as [f|]; destruct e as [|a|]; simpl; auto; try contradiction; lia.
+Qed.
+
+(** ---- the main induction, on the derivation of the concrete execution *)
+Definition item_sound (it : item) (c : conc) (o : out) : Prop :=
+  forall s, gamma s c -> rok (run_item it s) = true -> sound_out (run_item it s) o.
+
+Definition list_sound (l : list item) (c : conc) (o : out) : Prop :=
+  forall s, gamma s c -> rok (run_list l (Some s)) = true -> sound_out (run_list l (Some s)) o.
+
+Lemma sound_out_abort_irrel : forall r r' o, aborts o -> sound_out r o -> sound_out r' o.
+Proof. intros r r' [c|c|c|] Ha H; simpl in *; auto; contradiction. Qed.
+
+Lemma exec_sound_both :
+  (forall it c o, exec it c o -> item_sound it c o) /\
+  (forall l c o, execs l c o -> list_sound l c o).
+Proof.
+  apply exec_execs_mind; unfold item_sound, list_sound.
+  - (* IPub *) intros k c s [H1 [H2 [H3 H4]]] _; simpl. unfold gamma; simpl.
+    split; [lia|]. split; [lia|]. split; [lia|]. exact H4.
+  - (* IPubUnknown *) intros p c s _ Hok; simpl in Hok; discriminate.
+  - (* IReload *) intros c s [H1 [H2 [H3 H4]]] _; simpl. unfold gamma; simpl.
+    split; [lia|]. split; [lia|]. split; [lia|].
+    unfold gfe in *; simpl. destruct (cf c) as [f|]; auto.
+    destruct (arel s); simpl in *; destruct (afe s); simpl in *; auto; try contradiction; lia.
+  - (* ITop *) intros d c s [H1 [H2 [H3 H4]]] _; simpl. unfold gamma; simpl. split; [|split; [lia|split; [lia|]]].
+    + destruct (arel s); simpl in *; auto.
+      * destruct (d <=? 0) eqn:E; simpl; auto. apply Z.leb_le in E. lia.
+      * lia.
+    + unfold gfe in *; simpl. destruct (cf c) as [f|]; auto.
+      destruct (afe s); simpl in *; auto; lia.
+  - (* ITopDown *) intros n c Hn s [H1 [H2 [H3 H4]]] _; simpl. unfold gamma; simpl. split; [|split; [lia|split; [lia|]]].
+    + destruct (arel s); simpl in *; auto.
+      * lia.
+      * destruct (d <=? 0) eqn:E; simpl; auto. apply Z.leb_le in E. lia.
+    + unfold gfe in *; simpl. destruct (cf c) as [f|]; auto.
+      destruct (afe s); simpl in *; auto.
+  - (* ITopUnknown *) intros t c Ht s [H1 [H2 [H3 H4]]] _; simpl. unfold gamma; simpl.
+    split; [exact I|]. split; [lia|]. split; [lia|]. unfold gfe; simpl. exact I.
+  - (* IStore *) intros k stb c s Hg _; simpl. apply step_store_sound; exact Hg.
+  - (* ICall ok *) intros f c _ _ _ s Hg _; simpl. exact Hg.
+  - (* ICall lost *) intros f c Hlt s Hg Hok; simpl in *. destruct (safe_gamma _ _ Hok Hg) as [Ha [Hb Hc]]. lia.
+  - (* ICall stale *) intros f c Hlt s Hg Hok; simpl in *. destruct (safe_gamma _ _ Hok Hg) as [Ha [Hb Hc]]. lia.
+  - (* ICall fresh *) intros f c x Hx Hlt s Hg Hok; simpl in *. destruct (safe_gamma _ _ Hok Hg) as [Ha [Hb Hc]].
+    unfold fresh_below_pub in Hc. rewrite Hx in Hc. lia.
+  - (* IIf, first branch *) intros a b c o _ IH s Hg Hok. rewrite run_item_if in *. simpl in Hok.
+    apply andb_prop in Hok. destruct Hok as [Ha Hb].
+    specialize (IH s Hg Ha).
+    destruct o; simpl in *; auto; [apply gamma_join_l | apply gamma_join_l]; exact IH.
+  - (* IIf, second branch *) intros a b c o _ IH s Hg Hok. rewrite run_item_if in *. simpl in Hok.
+    apply andb_prop in Hok. destruct Hok as [Ha Hb].
+    specialize (IH s Hg Hb).
+    destruct o; simpl in *; auto; [apply gamma_join_r | apply gamma_join_r]; exact IH.
+  - (* ILoop, no further iteration *) intros b c s Hg Hok. rewrite run_item_loop in *.
+    destruct (loop_res_inv _ _ Hok) as [si [Hf [Hge _]]]. unfold sound_out. rewrite Hf. apply Hge; exact Hg.
+  - (* ILoop, one iteration then the rest *) intros b c c1 o _ IH1 _ IH2 s Hg Hok. rewrite run_item_loop in *.
+    destruct (loop_res_inv _ _ Hok) as [si [Hf [Hge [Hst Hokb]]]].
+    specialize (IH1 si (Hge c Hg) Hokb). simpl in IH1.
+    assert (G1 : gamma si c1).
+    { assert (G : gammao (loop_round (run_list b) (Some si)) c1)
+        by (unfold loop_round; apply gamma_join_r, gamma_join_l; exact IH1).
+      rewrite Hst in G. exact G. }
+    specialize (IH2 si G1). rewrite run_item_loop, (loop_res_stable _ _ Hst Hokb) in IH2.
+    specialize (IH2 eq_refl).
+    destruct o; unfold sound_out in *; cbn [rfall rbrk] in IH2; auto; try contradiction.
+    rewrite Hf. exact IH2.
+  - (* ILoop, break *) intros b c c1 _ IH1 s Hg Hok. rewrite run_item_loop in *.
+    destruct (loop_res_inv _ _ Hok) as [si [Hf [Hge [Hst Hokb]]]].
+    specialize (IH1 si (Hge c Hg) Hokb). simpl in IH1. unfold sound_out. rewrite Hf.
+    assert (G : gammao (loop_round (run_list b) (Some si)) c1)
+      by (unfold loop_round; apply gamma_join_r, gamma_join_r; exact IH1).
+    rewrite Hst in G. exact G.
+  - (* ILoop, continue *) intros b c c1 o _ IH1 _ IH2 s Hg Hok. rewrite run_item_loop in *.
+    destruct (loop_res_inv _ _ Hok) as [si [Hf [Hge [Hst Hokb]]]].
+    specialize (IH1 si (Hge c Hg) Hokb). simpl in IH1.
+    assert (G1 : gamma si c1).
+    { assert (G : gammao (loop_round (run_list b) (Some si)) c1)
+        by (unfold loop_round; apply gamma_join_r, gamma_join_r; exact IH1).
+      rewrite Hst in G. exact G. }
+    specialize (IH2 si G1). rewrite run_item_loop, (loop_res_stable _ _ Hst Hokb) in IH2.
+    specialize (IH2 eq_refl).
+    destruct o; unfold sound_out in *; cbn [rfall rbrk] in IH2; auto; try contradiction.
+    rewrite Hf. exact IH2.
+  - (* ILoop, the body stops or goes wrong *) intros b c o _ IH1 Hab s Hg Hok. rewrite run_item_loop in *.
+    destruct (loop_res_inv _ _ Hok) as [si [Hf [Hge [Hst Hokb]]]].
+    specialize (IH1 si (Hge c Hg) Hokb).
+    eapply sound_out_abort_irrel; eauto.
+  - (* IBlock, falls through *) intros b c c1 _ IH s Hg Hok. rewrite run_item_block in *. simpl in *.
+    apply gamma_join_l. exact (IH s Hg Hok).
+  - (* IBlock, break *) intros b c c1 _ IH s Hg Hok. rewrite run_item_block in *. simpl in *.
+    apply gamma_join_r. exact (IH s Hg Hok).
+  - (* IBlock, abort *) intros b c o _ IH Hab s Hg Hok. rewrite run_item_block in *. simpl in Hok.
+    eapply sound_out_abort_irrel; eauto.
+  - (* IStop *) intros c s Hg Hok; simpl in *. eapply exit_gamma; eauto.
+  - (* IBreak *) intros c s Hg _; simpl. exact Hg.
+  - (* [] *) intros c s Hg _. rewrite run_list_nil. simpl. exact Hg.
+  - (* x :: tl, x falls through *) intros x tl c c1 o _ IH1 _ IH2 s Hg Hok. rewrite run_list_cons in *. simpl in Hok.
+    apply andb_prop in Hok. destruct Hok as [Hx Ht].
+    specialize (IH1 s Hg Hx). simpl in IH1.
+    destruct (rfall (run_item x s)) as [s1|] eqn:Ef; [|contradiction].
+    specialize (IH2 s1 IH1 Ht).
+    destruct o; simpl in *; auto. apply gamma_join_r. exact IH2.
+  - (* x :: tl, x does not fall through *) intros x tl c o _ IH1 Hnf s Hg Hok. rewrite run_list_cons in *. simpl in Hok.
+    apply andb_prop in Hok. destruct Hok as [Hx Ht].
+    specialize (IH1 s Hg Hx).
+    destruct o; simpl in *; auto; try contradiction. apply gamma_join_l. exact IH1.
+Qed.
+
+(** the checker is sound for every piece of code of the item language, branches, loops and nested switches
+    included: started in a configuration described by the abstract state, an accepted piece never runs an
+    allocating call with the local top above the published top or with the published top above the written end,
+    every fall-through / break configuration is described by the computed states, and every configuration at
+    which the opcode ends satisfies the entry condition of the next opcode *)
+Theorem vm_top_checker_sound_all : forall l c o s,
+  execs l c o -> gamma s c -> rok (run_list l (Some s)) = true ->
+  o <> OBad /\ sound_out (run_list l (Some s)) o.
+Proof.
+  intros l c o s He Hg Hok.
+  pose proof (proj2 exec_sound_both l c o He s Hg Hok) as H.
+  split; [intros ->; exact H | exact H].
+Qed.
+
+(** an accepted opcode segment preserves the interpreter-loop invariant [entry] and never allocates in a bad
+    configuration; an opcode starts with no fresh store of its own *)
+Theorem seg_ok_sound : forall e c o,
+  seg_ok e = true -> entry c -> cf c = None -> execs (snd e) c o ->
+  match o with OBad => False | OFall c' | OBreak c' | OStop c' => entry c' end.
+Proof.
+  intros e c o Hs Hc Hfr He. unfold seg_ok in Hs.
+  apply andb_prop in Hs. destruct Hs as [Hs Hb]. apply andb_prop in Hs. destruct Hs as [Hok Hf].
+  pose proof (entry_gamma_start c Hc Hfr) as Hg.
+  destruct (vm_top_checker_sound_all _ _ _ _ He Hg Hok) as [_ H].
+  destruct o as [c'|c'|c'|]; simpl in H; auto.
+  - destruct (rfall (run_list (snd e) (Some start))) as [s'|]; [|contradiction].
+    eapply exit_gamma; eauto.
+  - destruct (rbrk (run_list (snd e) (Some start))) as [s'|]; [|contradiction].
+    eapply exit_gamma; eauto.
+Qed.
+
+(** ---- examples: the shapes of the two genuine defects are rejected, the repaired shapes accepted, and the
+    rejected shapes really have a bad execution (the concrete semantics is not vacuous) *)
 Example ex_ok : seg_ok ("ok"%string, [IPub 0; ICall "sexp_cons_op"; ITop (-1); IStop]) = true.
 Proof. reflexivity. Qed.
 Example ex_unpublished : seg_ok ("bad"%string, [ICall "sexp_string_utf8_ref"; ITop (-1); IStop]) = false.
 Proof. reflexivity. Qed.
-Example ex_push_after_publish : seg_ok ("bad"%string, [IPub 0; ITop 1; ICall "sexp_cons_op"; IStop]) = false.
+Example ex_push_after_publish : seg_ok ("bad"%string, [IPub 0; IStore 0 false; ITop 1; ICall "sexp_cons_op"; IStop]) = false.
 Proof. reflexivity. Qed.
 Example ex_branch : seg_ok ("br"%string, [IIf [IPub 0] []; ICall "sexp_cons_op"]) = false.
 Proof. reflexivity. Qed.
-Example ex_loop : seg_ok ("lp"%string, [IPub 0; ILoop [ICall "sexp_cons_op"; ITop 1]; IStop]) = false.
+Example ex_loop : seg_ok ("lp"%string, [IPub 0; ILoop [ICall "sexp_cons_op"; IStore 0 false; ITop 1]; IStop]) = false.
 Proof. reflexivity. Qed.
 Example ex_loop_ok : seg_ok ("lp"%string, [IPub 0; ILoop [ICall "sexp_cons_op"; ITop (-1)]; IStop]) = true.
+Proof. reflexivity. Qed.
+(** a break that leaves a loop with the top above the published one (unsound in the round-2 checker) *)
+Example ex_loop_break : seg_ok ("lb"%string, [IPub 0; ILoop [IStore 0 false; ITop 1; IIf [IBreak] []; ITop (-1)]; ICall "sexp_cons_op"; IStop]) = false.
+Proof. reflexivity. Qed.
+(** sexp_raise before e9f05cd: publish top+1, build the irritants, store them *)
+Definition raise_pinned : list item :=
+  [ILoop [IPub 1; ICall "sexp_cons_op"; IStore 0 false; ICall "sexp_user_exception"; IStore 0 false; ITop 1; IStop]].
+(** sexp_raise as repaired *)
+Definition raise_fixed : list item :=
+  [ILoop [IPub 0; ICall "sexp_cons_op"; IStore 0 false; IPub 1; ICall "sexp_user_exception"; IStore 0 false; ITop 1; IStop]].
+Example ex_raise_pinned : seg_ok ("SEXP_OP_CAR"%string, raise_pinned) = false.
+Proof. reflexivity. Qed.
+Example ex_raise_fixed : seg_ok ("SEXP_OP_CAR"%string, raise_fixed) = true.
+Proof. reflexivity. Qed.
+Example ex_raise_pinned_bad : execs raise_pinned (mkc 5 5 5 None) OBad.
+Proof.
+  eapply EConsOther; [|exact I].
+  eapply ELoopAbort; [|exact I].
+  eapply EConsFall; [apply EPub|].
+  eapply EConsOther; [|exact I]. apply ECallStale. simpl. lia.
+Qed.
+Example ex_raise_fixed_run : execs raise_fixed (mkc 5 5 5 None) (OStop (mkc 6 6 6 (Some 6))).
+Proof.
+  eapply EConsOther; [|exact I].
+  eapply ELoopAbort; [|exact I].
+  eapply EConsFall; [apply EPub|].
+  eapply EConsFall; [apply ECallOk; unfold fresh_below_pub; simpl; lia|].
+  eapply EConsFall; [apply EStore|]. simpl.
+  eapply EConsFall; [apply EPub|]. simpl.
+  eapply EConsFall; [apply ECallOk; unfold fresh_below_pub; simpl; lia|].
+  eapply EConsFall; [apply EStore|]. simpl.
+  eapply EConsFall; [apply ETop|]. simpl.
+  eapply EConsOther; [apply EStop|exact I].
+Qed.
+(** publishing a slot and storing it before anything allocates is fine *)
+Example ex_publish_then_store : seg_ok ("ps"%string, [IPub 1; IStore 0 false; ICall "sexp_cons_op"; ITop 1; IStop]) = true.
+Proof. reflexivity. Qed.
+(** an opcode may not end with an unwritten slot below its top *)
+Example ex_exit_unwritten : seg_ok ("ex"%string, [ITop 1; IStop]) = false.
+Proof. reflexivity. Qed.
+(** breaking change "sexp_raise publishes top instead of top+1 for the exception allocation": the irritants list
+    lives only in stack[top], above the published top *)
+Definition raise_irritants_unrooted : list item :=
+  [ILoop [IPub 0; ICall "sexp_cons_op"; IStore 0 false; IPub 0; ICall "sexp_user_exception"; IStore 0 false; ITop 1; IStop]].
+Example ex_raise_irritants_unrooted : seg_ok ("SEXP_OP_CAR"%string, raise_irritants_unrooted) = false.
+Proof. reflexivity. Qed.
+Example ex_raise_irritants_unrooted_bad : execs raise_irritants_unrooted (mkc 5 5 5 None) OBad.
+Proof.
+  eapply EConsOther; [|exact I].
+  eapply ELoopAbort; [|exact I].
+  eapply EConsFall; [apply EPub|].
+  eapply EConsFall; [apply ECallOk; unfold fresh_below_pub; simpl; lia|].
+  eapply EConsFall; [apply EStore|]. simpl.
+  eapply EConsFall; [apply EPub|]. simpl.
+  eapply EConsOther; [|exact I]. eapply ECallFresh; simpl; [reflexivity|]. unfold fresh_store; simpl. lia.
+Qed.
+(** frame words (immediates and the registered local self) above the published top are fine: CALLCC *)
+Example ex_callcc_frame : seg_ok ("cc"%string, [IStore 0 true; IStore 1 true; IStore 2 true; IStore 3 true; IPub 0; ICall "sexp_make_vector"; ITop 4; IStop]) = true.
 Proof. reflexivity. Qed.
